@@ -10,7 +10,7 @@ DIR = os.path.join(C.BUILD, 'c19')
 SUSP = ['eval(1)', 'os.system("x")', '__import__(x)', 'quit()', 'foo(bar)', 'a(1)', 'print (1)', 'x_1(2) + y(3)', 'aB(c)', 'getB(1)', 'exit()', 'f(g(1))', 'open(f).read()']
 INNO = ['hello', 'SUM(A1:A2)', 'IF(A1>1,2,3)', 'no call here', 'x (1)', '12', 'A1+B2', 'MAX(1,2)+MIN(3,4)', '(1+2)', 'ROUND(2.5,0)']
 MIXED = ['SUM(eval(1))', 'IF(f(1),2,3)', 'eval(SUM(1))', 'MAX(1) and min(2)']
-TITLES = ['Main', 'My Data', 'S3']
+TITLES = ['Main', "Bob's data", 'S3']         # the report key quotes the title as it is: '<title>'<address>
 
 
 def gen_recipe(rng):
@@ -29,7 +29,7 @@ def gen_recipe(rng):
         if rng.random() < 0.35:
             text = '=' + text
         cells.append([s, col, row, text])
-    return {'nsheets': nsheets, 'cells': cells, 'safety': rng.random() < 0.75, 'chart_at': rng.choice([None, None, None, 0, 1])}
+    return {'nsheets': nsheets, 'cells': cells, 'safety': rng.random() < 0.75, 'chart_at': rng.choice([None, None, None, 0, 1]), 'array': rng.random() < 0.2}
 
 
 def make_case(rc, k=[0]):
@@ -41,7 +41,12 @@ def make_case(rc, k=[0]):
         ws = wb.active if i == 0 else wb.create_sheet()
         ws.title = TITLES[i]
     for s, col, row, text in rc['cells']:
-        wb.worksheets[s]['%s%d' % (get_column_letter(col), row)] = text
+        a = '%s%d' % (get_column_letter(col), row)
+        if rc.get('array') and text.startswith('='):
+            from openpyxl.worksheet.formula import ArrayFormula          # the same text stored as an array formula {=...}
+            wb.worksheets[s][a] = ArrayFormula('%s:%s' % (a, a), text)
+        else:
+            wb.worksheets[s][a] = text
     if rc.get('chart_at') is not None:
         # a chart sheet in the tab order: it is a sheet name but not a worksheet (titles must still be those of the worksheets)
         from openpyxl.chart import BarChart, Reference
@@ -76,6 +81,7 @@ def corpus():
     rs = [{'nsheets': 2, 'cells': [[0, 2, 3, 'eval(1)'], [1, 3, 5, 'os.system(1)'], [0, 1, 1, 'SUM(A1)']], 'safety': True},
           {'nsheets': 1, 'cells': [[0, 2, 3, 'quit()']], 'safety': True}, {'nsheets': 1, 'cells': [[0, 2, 3, '=os.getcwd()']], 'safety': True},
           {'nsheets': 1, 'cells': [[0, 2, 3, 'eval(1)']], 'safety': False}, {'nsheets': 1, 'cells': [[0, 27, 11, 'SUM(1)'], [0, 1, 2, 'x']], 'safety': True}]
+    rs.append({'nsheets': 1, 'safety': True, 'array': True, 'cells': [[0, 1, 1, '=eval(1)'], [0, 2, 2, '=SUM(1,2)']]})           # array formulas (fixed by 610ac1e)
     rs.append({'nsheets': 3, 'safety': True, 'cells': [[i % 3, 1 + i % 4, 1 + i // 3, 'eval(%d)' % i] for i in range(14)]})       # 14 Python-like cells on 3 sheets
     rs += [x['witness'] for x in C.known_findings()['findings'] if x['property'] == 'C19']
     return rs
